@@ -327,8 +327,26 @@ pub open spec fn node_flag<F: Fn(&Node) -> bool>(f: F, nodes: Seq<Node>) -> spec
           # functional result not claimed: vstd's specification of Iterator::any says nothing when the result is false, and the body is a single
           # expression (no place for the witness step of the other direction); only panic-freedom under graph_ok is proved
           props=('C01', 'C03')))
-    so.fn('remove_deferred', F('remove_deferred', props=('C01', 'C03')))
-    so.fn('remove_not_deferred', F('remove_not_deferred', props=('C01', 'C03')))
+    so.fn('remove_deferred', F('remove_deferred', ensures="""
+            // only nodes of the right kind survive, taken from the input levels, and no level is empty
+            // (that NO such node is dropped is not provable from vstd's filter / map / collect specifications: bounded by xrun graph)
+            forall|i: int, j: int| 0 <= i < r@.len() && 0 <= j < r@[i]@.len() ==> !deferred@.contains(r@[i]@[j]),
+            forall|i: int| 0 <= i < r@.len() ==> (#[trigger] r@[i])@.len() > 0,
+            r@.len() <= nodes@.len()""",
+          closures={0: {'params': 'level: Vec<u16>', 'ret': 'l: Vec<u16>', 'ensures': 'forall|j: int| 0 <= j < l@.len() ==> !deferred@.contains(l@[j])'},
+                    1: {'params': 'node: &u16', 'ret': 'b: bool', 'ensures': 'b == (!deferred@.contains(*node))'},
+                    2: {'params': 'level: &Vec<u16>', 'ret': 'b: bool', 'ensures': 'b == (level@.len() > 0)'}},
+          props=('C01', 'C03')))
+    so.fn('remove_not_deferred', F('remove_not_deferred', ensures="""
+            // only nodes of the right kind survive, taken from the input levels, and no level is empty
+            // (that NO such node is dropped is not provable from vstd's filter / map / collect specifications: bounded by xrun graph)
+            forall|i: int, j: int| 0 <= i < r@.len() && 0 <= j < r@[i]@.len() ==> deferred@.contains(r@[i]@[j]),
+            forall|i: int| 0 <= i < r@.len() ==> (#[trigger] r@[i])@.len() > 0,
+            r@.len() <= nodes@.len()""",
+          closures={0: {'params': 'level: Vec<u16>', 'ret': 'l: Vec<u16>', 'ensures': 'forall|j: int| 0 <= j < l@.len() ==> deferred@.contains(l@[j])'},
+                    1: {'params': 'node: &u16', 'ret': 'b: bool', 'ensures': 'b == (deferred@.contains(*node))'},
+                    2: {'params': 'level: &Vec<u16>', 'ret': 'b: bool', 'ensures': 'b == (level@.len() > 0)'}},
+          props=('C01', 'C03')))
     # ------------------------------------------------------------------ check::predicate
     pm = u.module('predicate', file='crates/check/src/predicate.rs', uses="""
 use crate::essential_types::predicate::Predicate; use crate::ext::secp256k1; use crate::*;""")
